@@ -25,7 +25,11 @@ func init() {
 			"multi": multi, "oneline": one, "crlf": []byte(strings.ReplaceAll(string(multi), "\n", "\r\n")),
 			"nofinalnl": []byte(strings.TrimRight(string(multi), "\n")), "tabs": tabbed,
 		}
-		bases := []specgen.Flags{{}, {BasePath: "/v1"}, {BasePath: "/v1/", Client: true}, {BasePath: "/a/b", SpecName: "spec.json"}, {SpecName: "api-docs.yaml", Cors: true}}
+		bases := []specgen.Flags{{}, {BasePath: "/v1"}, {BasePath: "/v1/", Client: true}, {BasePath: "/a/b", SpecName: "spec.json"}, {SpecName: "api-docs.yaml", Cors: true},
+			// names that URL escaping would rewrite: the route is compared with the decoded request path
+			{SpecName: "open api.yaml"}, {SpecName: "docs/openapi.yaml", BasePath: "/v2"}, {SpecName: "pétstore.yaml"}, {SpecName: "a%20b.json"}, {SpecName: "spec+v1;x=1.yaml", Client: true},
+			// names that are not Go string literal text as they stand
+			{SpecName: "a\"b.yaml"}, {SpecName: "a\\b.yaml", BasePath: "/v1"}, {SpecName: "tab\there.yaml"}}
 		for name, raw := range forms {
 			for bi, fl := range bases {
 				mk(fmt.Sprintf("specfile/%s/base%d", name, bi), raw, ".json", fl)
